@@ -26,7 +26,7 @@ func (spec *Spec) TimeAtSlot(slot Slot, genesisTime Timestamp) (Timestamp, error
 	// GENESIS_SLOT == 0, no need to subtract it
 	max := (^Timestamp(0)) - genesisTime
 	max /= spec.SECONDS_PER_SLOT
-	if slot >= Slot(max) {
+	if slot > Slot(max) {
 		return 0, fmt.Errorf("slot value is abnormally high: %d, timestamp calculation would overflow 64 bits, max is %d", slot, max)
 	}
 	return (Timestamp(slot) * spec.SECONDS_PER_SLOT) + genesisTime, nil
